@@ -174,8 +174,23 @@ class BuilderMachine(LoggedMachine):
         o = self.cfg['opts']
         pm = fc.build_pm(tdesc, max_alt_ft=max_alt_ft)
         got = self._fly(self.builder, pm, mdesc, codes, apt, sm, departure)
+        snap_got = snapshot(got[1]) if got[0] == 'ok' else None  # taken before anything else is flown
         fresh_builder = fc.make_builder(o, use_weather=self.cfg['weather'])
         ref = self._fly(fresh_builder, pm, mdesc, codes, apt, sm, departure)
+        prev = getattr(self, 'prev_result', None)
+        if prev is not None:
+            # the trajectory returned by the previous successful call must not be altered by this (usually different) flight
+            k = diff_snapshots(prev[1], snapshot(prev[0]))
+            if k is not None:
+                ctx.fail('result.altered_by_later_flight', 'mismatch', 'base.fly', 'len<=50' if prev[1]['len'] <= 50 else 'len>50',
+                         f'field {k} of the trajectory returned by the previous call ({prev[1]["len"]} points) changed when {kind} was flown')
+        self.prev_result = (got[1], snap_got) if snap_got is not None else None
+        if snap_got is not None:
+            # a returned trajectory is a result: flying again (here: the same mission on another builder) must not alter it
+            k = diff_snapshots(snap_got, snapshot(got[1]))
+            if k is not None:
+                ctx.fail('result.altered_by_later_flight', 'mismatch', 'base.fly', 'len<=50' if len(got[1]) <= 50 else 'len>50',
+                         f'{kind}: field {k} of an already returned trajectory ({len(got[1])} points) changed when another flight was flown')
         where = 'after_failure' if self.last_failed else ('first_call' if self.calls == 1 else 'after_success')
 
         # -- no leftover context, options untouched
@@ -197,7 +212,7 @@ class BuilderMachine(LoggedMachine):
                 ctx.fail('independence', 'mismatch', 'base.fly', where,
                          f'{kind}: history builder raised {got[1]!r}, fresh builder raised {ref[1]!r}')
         else:
-            k = diff_snapshots(snapshot(got[1]), snapshot(ref[1]))
+            k = diff_snapshots(snap_got, snapshot(ref[1]))
             if k is not None:
                 ctx.fail('independence', 'mismatch', 'base.fly', where,
                          f'{kind}: field {k} differs between the history builder and a fresh builder '
